@@ -1,0 +1,45 @@
+//go:build verif
+// +build verif
+
+// Package verifhook provides named points the verification harness can attach callbacks to
+// (build tag `verif`): a callback can park the calling goroutine, count the visit or inject a delay,
+// which makes interleavings between critical sections reproducible.
+package verifhook
+
+import "sync"
+
+var (
+	mu    sync.RWMutex
+	hooks = map[string]func(){}
+)
+
+// Enabled tells whether the hooks are compiled in.
+const Enabled = true
+
+// At calls the callback registered for the point, if any.
+func At(point string) {
+	mu.RLock()
+	f := hooks[point]
+	mu.RUnlock()
+	if f != nil {
+		f()
+	}
+}
+
+// Set registers (or, with nil, removes) the callback of a point.
+func Set(point string, f func()) {
+	mu.Lock()
+	if f == nil {
+		delete(hooks, point)
+	} else {
+		hooks[point] = f
+	}
+	mu.Unlock()
+}
+
+// Reset removes all callbacks.
+func Reset() {
+	mu.Lock()
+	hooks = map[string]func(){}
+	mu.Unlock()
+}
